@@ -52,6 +52,12 @@ UsedNodes(links) == {links[i].u : i \in 1..Len(links)} \cup {links[i].v : i \in 
 NearestNode(pos, links, q) == CHOOSE n \in UsedNodes(links) : \A m \in UsedNodes(links) : Dist2(pos[n], q) <= Dist2(pos[m], q)
 NearestUnique(pos, links, q) == LET b == NearestNode(pos, links, q) IN \A m \in UsedNodes(links) : m # b => Dist2(pos[b], q) < Dist2(pos[m], q)
 
+(* twin queries: the two query points lie a hair's breadth on either side of the midpoint of nodes u and v (the harness places
+   them there; `from` and `to` of the case are the nodes' own positions).  They are different points with different nearest
+   nodes - u and v - as long as every other node is farther from the midpoint than u and v are (doubled coordinates) *)
+TwinOK(pos, links, u, v) == /\ u # v /\ u \in UsedNodes(links) /\ v \in UsedNodes(links)
+                            /\ \A m \in UsedNodes(links) \ {u, v} :
+                                  Dist2(<<2 * pos[m][1], 2 * pos[m][2]>>, <<pos[u][1] + pos[v][1], pos[u][2] + pos[v][2]>>) > Dist2(pos[u], pos[v])
 RouteOK(pos, links, opt, from, to, route, dist, time4) ==
     LET s == NearestNode(pos, links, from)
         t == NearestNode(pos, links, to)
